@@ -134,5 +134,14 @@ CHECKS = {
         note="Same-kind list pairs; host-bits-set networks only assert 'no foreign exception'; dates YYYY/MM/DD or YYYY-MM-DD.",
         design_ref="DESIGN.md §4 C17",
     ),
+    "C18": dict(
+        technique="exhaustive enumeration of filter trees x leaf operator classes x leaf-truth vectors, evaluated with the library's parser/evaluator against the Custodian combinator semantics (translation validation by testing)",
+        category="exploration",
+        text="All filter trees up to 5 nodes (7 thorough), depth <= 4, over {list, and, or, not} with 1-3 children through logical_connector and c7n_rewrite(YAML); leaves = stub clauses "
+             "covering every top-level operator class the real rewriters emit (surveyed at run time) plus real clauses with controllable truth; every leaf-truth vector with two "
+             "variable realisations; the emitted CEL must parse and evaluate to all/any/not-all.",
+        note="Stub leaves installed by replacing C7N_Rewriter.primitive from outside (as the unit tests do); real leaves limited to one per family and one Tags reader per tree.",
+        design_ref="DESIGN.md §4 C18",
+    ),
 }
 NOT_APPLICABLE = {}
